@@ -65,7 +65,8 @@ def run(m: Model, r: Report, tier: str) -> None:
     r.rule("R6", "every public attribute shape of every request/response class is converted to a JSON-native value by the handler", floor=70)
     r.rule("R7", "disconnect drains before closing: unbounded join() < cancel() < connection.close(); one FIFO consumer task", floor=5)
     r.rule("R8", "rows are written iff implicit logging is on and a handler exists; emphasized iff 'ANALYZE' tag", floor=3)
-    r.rule("R9", "byte strings are stored through a non-truncating representation", floor=4)
+    r.rule("R9", "byte strings are stored through a non-truncating representation; the logged request object re-serialises to the transmitted bytes", floor=6)
+    r.rule("R10", "a scanner's implicit-logging setting reaches the ECU object before the first request of setup()", floor=1)
 
     req = m.require_function(f"{ECU}.ECU._request")
     g = CFG(req.node)
@@ -261,6 +262,17 @@ def run(m: Model, r: Report, tier: str) -> None:
     puts = [n for n in ast.walk(hins.node) if isinstance(n, ast.Call) and ast.unparse(n.func) == "self._execute_queue.put"]
     r.check(len(puts) == 1, "R7", f"{hins.qualname}#one-put", f"{len(puts)} queue puts per exchange", loc=hins.loc)
 
+    conn_fn = m.require_function(f"{HANDLER}.DBHandler.connect")
+    qdefs = [n.value for n in ast.walk(conn_fn.node) if isinstance(n, (ast.Assign, ast.AnnAssign)) and n.value is not None and
+             ast.unparse(n.targets[0] if isinstance(n, ast.Assign) else n.target) == "self._execute_queue"]
+    if len(qdefs) != 1 or not isinstance(qdefs[0], ast.Call):
+        raise AnalysisError(f"{conn_fn.qualname}: creation of the execute queue not found")
+    qsize = qdefs[0].args[0] if qdefs[0].args else next((k.value for k in qdefs[0].keywords if k.arg == "maxsize"), None)
+    qv = 0 if qsize is None else m.try_fold(conn_fn.module, qsize, default="?")
+    r.check(isinstance(qv, int) and qv <= 0, "R7", f"{conn_fn.qualname}#execute-queue-unbounded",
+            f"the execute queue is bounded (maxsize={ast.unparse(qsize) if qsize is not None else 0}): `await queue.put()` in insert_scan_result can then suspend inside the "
+            "finally block of ECU._request, and a cancellation arriving there loses the row of an exchange that was completed", loc=conn_fn.loc)
+
     # ---------------------------------------------------------------- R8
     ifs = [n for n in ast.walk(req.node) if isinstance(n, ast.If) and "ANALYZE" in ast.unparse(n.test)]
     okm = len(ifs) == 1 and "'ANALYZE' in config.tags" in ast.unparse(ifs[0].test) and \
@@ -277,7 +289,31 @@ def run(m: Model, r: Report, tier: str) -> None:
     ok8, p8 = g.must_pass(g.entry, guard, ins)
     r.check(ok8, "R8", f"{req.qualname}#guarded", "insert_scan_result is reachable without the implicit-logging / handler guard", loc=req.loc)
 
+    # ---------------------------------------------------------------- R10
+    from sa.uds_rules import request_roundtrip_guard
+    su_ = m.require_function("gallia.command.uds.UDSScanner.setup")
+    gs = CFG(su_.node)
+    starts = [n.id for n in gs.nodes.values() if n.kind == "stmt" and isinstance(n.ast, ast.Assign) and ast.unparse(n.ast.targets[0]) == "self.ecu"]
+    reqs = {n.id for n in gs.nodes.values() if n.ast is not None and n.kind in ("stmt", "cond") and
+            any(isinstance(x, ast.Await) and isinstance(x.value, ast.Call) and ast.unparse(x.value.func).startswith("self.ecu.") for x in ast.walk(n.ast))}
+    applies = {n.id for n in gs.nodes.values() if n.ast is not None and n.kind == "stmt" and
+               ("self._apply_implicit_logging_setting()" in ast.unparse(n.ast) or "self.ecu.implicit_logging = " in ast.unparse(n.ast))}
+    nodb = {}
+    for n in gs.nodes.values():
+        if n.kind == "cond" and n.ast is not None and ast.unparse(n.ast) == "self.db_handler is not None":
+            nb = [b for b, k in gs.succ[n.id] if k == "n"]
+            if len(nb) == 2:
+                nodb[n.id] = nb[1]
+    if len(starts) != 1 or not reqs or not applies:
+        raise AnalysisError(f"{su_.qualname}: ECU creation / first requests / application of the implicit-logging setting not found")
+    ok10, p10 = gs.must_pass(starts[0], applies, reqs, skip_edge=lambda n, b, k: k == "exc" or nodb.get(n.id if hasattr(n, "id") else n) == b)
+    r.check(ok10, "R10", f"{su_.qualname}#setting-before-first-request",
+            "with a database, a request of setup() (reset, ping, tester present, properties) is reachable before the scanner's implicit_logging setting was "
+            "forwarded to the ECU: scanners that switch implicit logging off in their constructor get these exchanges recorded: "
+            + " -> ".join(repr(gs.nodes[p_]) for p_ in p10[-4:]), loc=su_.loc)
+
     # ---------------------------------------------------------------- R9
+    request_roundtrip_guard(m, r, "R9")
     n9 = 0
     for n in ast.walk(hins.node):
         if isinstance(n, ast.Call) and ast.unparse(n.func).split(".")[-1].startswith("bytes_repr") and n.args:
